@@ -248,9 +248,7 @@ INFO = {
         "trusted": ["hooked RNG (feature verif-hooks), its Lean decoder (NTV.Draw) and the feature-guarded wrappers ecm::verif / ecm_parallel::verif",
                     "reference primality for the oracle: trial division below 2^32, 12-base deterministic Miller-Rabin below 2^64, above that only the primes the harness built n from (Mersenne primes)",
                     "select_b(n) for n > 1000 (floating point) is read from the implementation and handed to the model; (b1 as f64).sqrt() is modelled as the integer square root (exact below 2^52)"],
-        "gaps": ["termination of the curve loop is probabilistic (false for a constant stream): the theorems are partial correctness; every explored run terminated",
-                 "primality of the returned p rests on Miller-Rabin (C13): a history in which 20 bases are all strong liars makes the drivers return a composite 'prime', and (dev only) a history with a witness followed by 20 liars trips debug_assert!(!is_prime(n)) in ecm; probability <= 4^-20 per call; on every explored case each returned p is re-checked by the reference primality test",
-                 "select_b's float branch and the f64 square root are not modelled"],
+        "gaps": ["termination of the curve loop is probabilistic (false for a constant stream): the theorems are about runs that return; every explored run terminated", "primality of the returned p rests on Miller-Rabin (C13): a history in which 20 bases are all strong liars makes the drivers return a composite 'prime' (probability <= 4^-20 per call by the proved Rabin-Monier bound; recorded open finding); uniqueness is a theorem under 'every acceptance along the run was correct'; on every explored case each returned p is re-checked by the reference primality test", "release profile: multiplicities are u64 and wrap silently, so the product theorem needs x < 2^(2^64) (kernel-checked counterexample at x = 2^(2^64), physically unreachable); select_b's float branch and the f64 square root are not modelled"],
         "assumptions": ["n >= 1 (n <= 0 is the documented panic, checked by the correspondence)"],
         "level_text": "Theorems about the Lean model of ecm.rs / ecm_parallel.rs / factorize.rs for every input, every sequence of random draws and both build profiles: any Err(d) of the point arithmetic, of ecm_oneshot and of its batched version divides n; ecm and ecm_parallel::ecm only return proper divisors; the work-stack drivers preserve the product (if they return, the product of the returned prime powers is x); dev profile: the stage-2 start exponents and ecm_oneshot never overflow for B1+1, B2+6 < 2^64; trial division is fully correct. Model tied to the code by replaying the captured random history of every run (dev and release builds); every implementation answer is re-checked by an independent oracle (strictly increasing, reference-prime, positive exponents, product n).",
         "level_note": "Trusted: Lean kernel + 3 standard axioms; RNG hook + decoder; harness-supplied select_b for n > 1000. Partial: termination and primality of the returned factors are not theorems (probabilistic).",
@@ -260,29 +258,29 @@ INFO = {
         "rule": _RES_GEN,
         "rulefn": _poly_pair_rule,
         "trusted": ["Mathlib Polynomial.resultant (determinant of the Sylvester matrix) as the specification"],
-        "gaps": ["integer routine resultant_smart (subresultant PRS): proved equal to the Sylvester determinant for all inputs UNDER the hypothesis that every truncated division it performs is exact (smart_is_sylvester_partial); that the divisions are always exact is the fundamental theorem of subresultants and is not proved: the model carries the exactness flag and the check fails if it is ever false on an explored case; every implementation value is also compared with an independent Bareiss determinant and with resultant_rational (full theorem)"],
+        "gaps": [],
         "assumptions": [],
-        "level_text": "Full theorem: the model of resultant_rational equals Mathlib's Sylvester-determinant resultant for all non-zero canonical rational polynomials; degenerate cases of the integer routine (zero, constants) proved; scaling law proved on the specification. The subresultant routine itself is tied to the code by differential testing with an exactness flag on every division and certified per explored case against an independent Sylvester determinant.",
-        "level_note": "Trusted: Lean kernel + 3 standard axioms; Mathlib resultant; correspondence coverage. Partial: resultant_smart = Sylvester determinant is a theorem conditional on the exactness flag, which is asserted per explored case.",
+        "level_text": "Full theorems about the Lean model of resultant.rs for all non-zero canonical polynomials: resultant_rational = Mathlib's Sylvester-determinant resultant; resultant_smart (subresultant pseudo-remainder sequence, Cohen 3.3.7) never panics, never runs out of fuel, every truncated division it performs is exact (the fundamental theorem of subresultants, proved via determinant polynomials and the invariant a^(m-j) b^(n-j-1) | S_j, defective degree drops included) and its value is Polynomial.resultant; degenerate cases; scaling law. Model tied to the code by differential testing; every value also compared with an independent Sylvester-determinant oracle; process-level CLI cases.",
+        "level_note": "Trusted: Lean kernel + 3 standard axioms; Mathlib resultant/determinants; correspondence coverage.",
     },
     "C05": {
         "cli": True,
         "rule": _RES_GEN + " For C05: f of degree >= 1, repeated factors, every residue of deg mod 4; metamorphic ops x->x+c, x->-x, disc(f g).",
         "rulefn": _poly_pair_rule,
         "trusted": ["Mathlib Polynomial.resultant as the specification of Res(f, f')"],
-        "gaps": ["discriminant(f) = Mathlib Polynomial.discr is a theorem for all f of degree >= 1 conditional on the exactness flag (as C04); the flag is asserted on every explored case, and every value is compared with the Sylvester determinant of (f, f'), plus the three metamorphic laws and 'zero iff gcd(f,f') non-constant' evaluated on the implementation"],
+        "gaps": [],
         "assumptions": ["deg f >= 1 (constants and zero are mirrored by the model and skipped by the oracle)"],
-        "level_text": "Theorems: the sign rule deg%4 in {2,3} <=> (-1)^(n(n-1)/2) = -1 for every n, the degree-1 case, refusal of the zero polynomial. The general value is certified per explored case (Sylvester determinant oracle, exactness flag) and by the metamorphic laws of the property.",
-        "level_note": "Trusted: Lean kernel + 3 standard axioms; correspondence coverage. Partial: as C04.",
+        "level_text": "Full theorems about the Lean model of discriminant.rs: for every canonical f of degree >= 1 the routine returns (never panics) Mathlib's Polynomial.discr f, i.e. (-1)^(n(n-1)/2) Res(f, f')/lc(f) with all divisions exact; the sign rule for every n; degree 1; refusal of the zero polynomial. Model tied to the code by differential testing; values also compared with the Sylvester determinant of (f, f'); metamorphic laws evaluated on the implementation; CLI cases.",
+        "level_note": "Trusted: Lean kernel + 3 standard axioms; Mathlib resultant/discr; correspondence coverage.",
     },
     "C10": {
         "rule": _RES_GEN + " For C10: pairs h*f1, h*g1 with arbitrary contents and signs, coprime, nested, equal, constants, zero.",
         "rulefn": _poly_pair_rule,
         "trusted": [],
-        "gaps": ["the theorems are conditional on the exactness flag of the model (every truncated division in the subresultant loop is exact): exactness for all inputs (the subresultant theorem) is not proved, it is asserted on every explored case; independently of the theorems every explored case is certified (exact division, Euclid over Q, rational-elimination rank of the Sylvester matrix)"],
+        "gaps": [],
         "assumptions": ["not both arguments zero"],
-        "level_text": "Theorems about the Lean model of resultant_smart_gcd, for all non-zero canonical f, g on which the model's exactness flag is set: the result divides f and g in Z[x], every common divisor in Z[x] divides it (Gauss's lemma from Mathlib), it equals gcd(cont f, cont g) times a primitive polynomial with positive leading coefficient, and a gcd with positive leading coefficient is unique; gcd(0,g) = g. Model tied to resultant.rs by differential testing; each explored case is additionally certified by independent exact computations.",
-        "level_note": "Trusted: Lean kernel + 3 standard axioms; Mathlib Polynomial/GaussLemma; correspondence coverage. Partial: exactness of the subresultant divisions is a hypothesis (flag), checked per explored case, not a theorem.",
+        "level_text": "Full theorems about the Lean model of resultant_smart_gcd for all non-zero canonical f, g: the routine returns (no panic, fuel suffices, all divisions exact) a polynomial that divides f and g in Z[x], that every common divisor in Z[x] divides (Gauss's lemma from Mathlib), equal to gcd(cont f, cont g) times a primitive polynomial with positive leading coefficient; such a gcd is unique; gcd(0,g) = g. Model tied to resultant.rs by differential testing; each explored case additionally certified by independent exact computations.",
+        "level_note": "Trusted: Lean kernel + 3 standard axioms; Mathlib Polynomial/GaussLemma; correspondence coverage.",
     },
     "C13": {
         "rule": "every n in [-3, 2^13) (thorough 2^17); Carmichael numbers by Korselt search below 2*10^5 (thorough 5*10^6); published strong pseudoprimes psi_1..psi_8 and others, repeated; scripted all-liar histories (bases 1 and n-1) and liar histories broken by a witness in the last round for composites; scripted and seeded histories for primes up to 2^61-1; Mersenne primes up to 2^607-1, their products, random odd numbers and semiprimes up to 512 bits; the random history (raw RNG chunks) of every run is captured by the hook and replayed into the model. Exhaustive strong-liar counts for odd n below 2^10 (thorough 2^13) on the model. Non-trivial: |n| > 3; distinct = distinct (op,args incl. history).",
